@@ -1,0 +1,10 @@
+//go:build verif
+// +build verif
+
+package utility
+
+// Package consensus/ticker calls GetTime() from a package-level initialiser,
+// i.e. before any main() can call VerifDisableNTP; offline that blocks in the
+// NTP lookup. Under the verif tag the NTP offset is marked initialised as soon
+// as this package is initialised (packages importing utility initialise later).
+func init() { VerifDisableNTP() }
